@@ -163,19 +163,22 @@ def make_custom(rng, loader, tier, force=None):
     prefix_pause = rng.choice((1000, 300, 300, 100))
     block_pauses = [rng.choice((0, 0, 100, 1000)) for _ in blocks]
     jitter = rng.choice((0, 0, 0, -3, 5))
+    # (the cycle loaders take 16+ long cycles for a pilot and would lock on to a longer false start)
+    splits = [(rng.choice((200, 301) if kind == 'edge' else (20, 27)), rng.choice((8, 25, 60))) if rng.random() < 0.35 else None for _ in blocks]
+    splits = force.get('splits', splits)
     harness.write_file('prog.bin', prog['code'])
     r = harness.run_tool('bin2tap', ['-o', str(org), 'prog.bin', 'prog.tap'])
     if not r.ok:
         return {'error': 'bin2tap failed: ' + r.describe()}
     tzx = g.custom_tzx(harness.read_file('prog.tap'), prog, blocks, rng, container=container, prefix_pause=prefix_pause,
-                       block_pauses=block_pauses, tape_pol=polarity, jitter=jitter)
+                       block_pauses=block_pauses, tape_pol=polarity, jitter=jitter, splits=splits)
     regions = [(org, prog['code'])] + [(b['dest'], bytes(b['data'])) for b in blocks]
     extra = ['-c', 'in-flags=4'] if loader == 'activision' else []
     return {'kind': 'custom', 'loader': loader, 'skeleton': kind, 'accs': list(accs), 'named': ','.join(accs), 'tape': tzx, 'ext': 'tzx',
             'polarity': polarity, 'first_edge': first_edge, 'start': prog['fin'] if use_start else None, 'regions': regions, 'extra': extra,
             'timeout': (g.tzx_duration(tzx) + abs(first_edge)) // 3500000 + 5, 'desc': {'loader': loader, 'fill': fill, 'delay': delay_kind, 'blocks': [len(b['data']) for b in blocks], 'container': container,
                                     'polarity': polarity, 'first_edge': first_edge, 'swap': swap, 'init_ctr': init_ctr, 'ending': ending, 'start': use_start, 'org': org,
-                                    'prefix_pause': prefix_pause, 'block_pauses': block_pauses, 'jitter': jitter}}
+                                    'prefix_pause': prefix_pause, 'block_pauses': block_pauses, 'jitter': jitter, 'false_starts': splits}}
 
 def make_bin2tap(rng, tier, force=None):
     force = force or {}
@@ -300,11 +303,16 @@ def state_diff(a, b):
         d.append('stop-reason(%s | %s)' % (a['stop'], b['stop']))
     return d
 
-def confined_to_r_t(a, b):
+def confined_to_phase(tape, a, b):
+    """Do two runs differ in nothing but what follows the phase between CPU and tape: R, T and - when the simulation was
+    stopped inside the sampling loop - the loop's counter register? (Same RAM, PC, SP, stop reason, hardware state.)"""
     if a['regs'] is None or b['regs'] is None or not (a['ok'] and b['ok']):
         return False
+    allowed = {R_IDX, T_IDX}
+    if tape['kind'] == 'custom':
+        allowed.add(2 + 'BCDEHL'.index(g.SHAPE[tape['accs'][0]].ctr))
     for i, (x, y) in enumerate(zip(a['regs'], b['regs'])):
-        if x != y and i not in (R_IDX, T_IDX):
+        if x != y and i not in allowed:
             return False
     return a['ram'] == b['ram'] and a['sstate'] == b['sstate'] and a['stop'] == b['stop']
 
@@ -540,7 +548,7 @@ def check_tape(shard, hooks, tape, rng, case_key, asan=False, only_groups=None):
                 shard.inc('observed:pause0_runs_with_late_first_read')
             if d:
                 finding = None
-                if confined_to_r_t(r1, r0) and late_first_read(r0) and not late_first_read(r1):
+                if confined_to_phase(tape, r1, r0) and late_first_read(r0) and not late_first_read(r1):
                     finding = F_PAUSE
                 shard.violation('%s tape (%s): pausing the tape between blocks changes the result: [%s] vs [%s]: %s' % (
                     tape['kind'], tape['desc'], describe_cfg(c1), describe_cfg(c0), ', '.join(d[:8])), replay_dict(tape, c1, c0, d[:8]), finding)
